@@ -130,8 +130,25 @@ def run_keys(ctx, replay_row=None):
     return len(rows), ok
 
 
+def inductive(ctx):
+    """Unbounded complement (thorough): DkimKeysInd.tla's inductive invariant discharged by Apalache.
+    A failure of the tool is recorded, it never decides the property."""
+    res = {}
+    for nm, args in (("init_implies_inv", ["--cinit=CInit", "--init=Init", "--inv=IndInv", "--length=0"]),
+                     ("inv_is_inductive", ["--cinit=CInit", "--init=IndInit", "--inv=IndInv", "--length=1"])):
+        try:
+            ok, tail = ctx.apalache("DkimKeysInd", args, name="apalache-" + nm, timeout=600)
+        except Exception as e:
+            ok, tail = False, str(e)
+        res[nm] = "discharged" if ok else "NOT discharged: " + tail[-200:]
+    ctx.cov["apalache_inductive_invariant"] = res
+    ctx.log("Apalache inductive invariant (DkimKeysInd.tla): %s" % res)
+
+
 def run(ctx, replay):
     thorough = ctx.tier == "thorough"
+    if thorough and not replay:
+        inductive(ctx)
     if replay and "keys" in json.load(open(replay)):
         run_keys(ctx, json.load(open(replay))["keys"])
         return
